@@ -144,6 +144,13 @@ PREFIXES = ['', '', '', 'push d1 pop0', 'true not pop0', '# a comment # push x00
 # OP_SET_FLAG is not among them: on this VM it raises for every standard flag, whose
 # names are not byte strings)
 # must not change the verdict of the lock that runs afterwards.
-DECORATIONS = ['', '', '', '', 'def 7 { true }', '@= zz [ x01 ]',
+DECORATIONS = ['', '', '', '', 'def 7 { true }', 'def 0 { pop0 true }', 'def 0 { true }',
+               '@= zz [ x01 ]', '@= d [ x%s ] @= r [ x%s ]' % ('11' * 32, '22' * 32),
                'try { false verify } except { true pop0 }', 'unset_flag d1',
                'push x01 push x02 swap2 pop0 pop0']
+
+# A trailing OP_RETURN in the unlocking script is different: on this VM the flag it
+# sets survives into the lock (the known C01 leak), where it can only cut the lock
+# short.  It is therefore judged for soundness only: whatever the item-level model
+# rejects must still be rejected.
+SUFFIXES = ['', '', '', '', '', '', 'return', 'true return', 'false return']
